@@ -84,9 +84,31 @@ Definition run_fall (bw ebw : option float) (in_eom : bool)
   sv_res (fun n => SZ (Z.of_nat n))
          (fall_time (zn (rise_time bw)) (option_map zn (etr_of ebw)) in_eom (zn ea) (zn ed)).
 
-(** one channel of a sampled sequence *)
-Definition run_seq (d D : Z) (bw : option float)
+(** a slot of the scheduler model carrying only what
+    [_ChannelSchedule.get_duration] reads: kind, end time and (for a pulse) the
+    fall time [fall_time(channel, in_eom_mode=schedule.in_eom_mode())] *)
+Definition mk_slot (is_pulse : bool) (tf fall : Z) : slot :=
+  {| s_kind := if is_pulse
+               then KPulse {| p_dur := 0; p_phase := zero; p_post := zero;
+                              p_fstd := fall; p_feom := fall; p_dd := false;
+                              p_sum := []; p_amax := zero |}
+               else KDelay;
+     s_ti := tf; s_tf := tf; s_tg := [] |}.
+
+(** [get_duration(include_fall_time=True)] of [Model/Sched.v] on the slots
+    (newest first) of a channel with bandwidth [bw] *)
+Definition duration_with_fall (bw : option float) (slots : list slot) : Z :=
+  match slots with
+  | [] => 0
+  | op :: _ => gd_scan (2 * rise_time bw) false (s_tf op) slots
+  end.
+
+(** one channel of a sampled sequence: the duration including fall time is
+    computed by the model from the slots (not taken from the implementation),
+    then the lengths / exception of the modulated samples *)
+Definition run_seq (d : Z) (slots : list slot) (bw : option float)
            (eom : option (float * option Z)) (blocks : Z) : sv :=
+  let D := duration_with_fall bw slots in
   let m := {| ms_d := d; ms_D := D; ms_bw := bw;
               ms_eom := match eom with
                         | Some (ebw, cbt) =>
@@ -94,5 +116,6 @@ Definition run_seq (d D : Z) (bw : option float)
                         | None => None
                         end;
               ms_blocks := blocks |} in
-  sv_res (fun t => let '(a, b, c) := t in SL [SZ a; SZ b; SZ c])
-         (samples_modulate_len m).
+  SL [SZ D;
+      sv_res (fun t => let '(a, b, c) := t in SL [SZ a; SZ b; SZ c])
+             (samples_modulate_len m)].
